@@ -20,6 +20,7 @@ func HarnessC16Echo(L int, prefix int) {
 	errs := verifLintNode(doc, verifRulesNoDeprecated())
 	for _, e := range errs {
 		verifReach("diagnostic")
+		verifDebug("diag", site.path+" "+e.Error())
 		verifCheck(verifNot(verifMsgHasRawNewline(e.Message)), "raw-line-break-in-message")
 	}
 	verifReach("linted")
